@@ -188,43 +188,57 @@ def sortParts : List Part → List Part
   | [] => []
   | p :: tl => insertPart p (sortParts tl)
 
-/-- `CompWF`: sorted by position the parts tile `[0, size)` exactly, each with the width of its key. -/
+/-- executable `CompWF` checker: sorted by position the parts tile `[0, size)` exactly, each with the width
+    of its key (sound for `Tiles`, see `Amoco.C12.compWF_sound`). -/
 def compWF (size : Nat) (parts : List Part) : Bool :=
   decide (0 < size) && (partsTile 0 (sortParts parts) == some size)
 
+/-- does the key of part `p` cover bit `b`? -/
+def covers (b : Nat) (p : Part) : Bool := decide (p.1 ≤ b) && decide (b < p.2.1)
+
+/-- every part lies inside `[0, n)`, is non-empty, and has the width of its key -/
+def Sized (n : Nat) (ps : List Part) : Prop :=
+  ∀ p ∈ ps, p.1 < p.2.1 ∧ p.2.1 ≤ n ∧ p.2.2.size = p.2.1 - p.1
+
+/-- the parts are pairwise disjoint (a comp under construction) -/
+def Disj (n : Nat) (ps : List Part) : Prop := Sized n ps ∧ ∀ b, ps.countP (covers b) ≤ 1
+
+/-- `CompWF`: the parts tile `[0, size)` exactly — no gap, no overlap, each part as wide as its key.
+    (`compWF` above is the executable checker of the same fact, used on dumps of real comps.) -/
+def Tiles (n : Nat) (ps : List Part) : Prop := Sized n ps ∧ ∀ b, b < n → ps.countP (covers b) = 1
+
 mutual
-/-- `WF e`: sizes agree where constructors demand it; every `comp` is `CompWF`. -/
-def wf : Expr → Bool
-  | cst v s _ => decide (0 < s) && decide (v < 2 ^ s)
-  | reg _ s _ => decide (0 < s)
-  | ext _ s _ => decide (0 < s)
-  | slc x p s _ _ _ => wf x && decide (0 < s) && decide (p + s ≤ x.size)
-  | comp s _ ps => compWF s ps && wfParts ps
-  | tst t l r s _ => wf t && wf l && wf r && decide (t.size = 1) && decide (l.size = s) && decide (r.size = s)
+/-- `WF e`: sizes agree where the constructors and `_checkarg_sizes` demand it; every `comp` is `CompWF`. -/
+def WF : Expr → Prop
+  | cst v s _ => 0 < s ∧ v < 2 ^ s
+  | reg _ s _ => 0 < s
+  | ext _ s _ => 0 < s
+  | slc x p s _ _ _ => WF x ∧ 0 < s ∧ p + s ≤ x.size
+  | comp s _ ps => 0 < s ∧ Tiles s ps ∧ WFParts ps
+  | tst t l r s _ => 0 < s ∧ WF t ∧ WF l ∧ WF r ∧ t.size = 1 ∧ l.size = s ∧ r.size = s
   | op o l r s _ _ =>
-      wf l && wf r &&
-      (match o.type with
-       | 4 => decide (s = 1) && decide (l.size = r.size)
-       | 8 => decide (s = l.size)
-       | _ => decide (l.size = r.size) && decide (s = if o = Op.mul2 then 2 * l.size else l.size))
-  | uop _ r s _ _ => wf r && decide (s = r.size)
-  | ptr b sg _ s _ => wf b && wfOpt sg && decide (s = b.size)
-  | mem a s _ _ ms => wf a && decide (0 < s) && wfMods ms
-  | vec l s _ => wfList l s
-  | vecw l s _ => wfList l s
-  | top s _ => decide (0 < s)
-def wfParts : List Part → Bool
-  | [] => true
-  | (_, _, e) :: tl => wf e && wfParts tl
-def wfOpt : Option Expr → Bool
-  | none => true
-  | some e => wf e
-def wfMods : List (Expr × Expr) → Bool
-  | [] => true
-  | (a, b) :: tl => wf a && wf b && wfMods tl
-def wfList : List Expr → Nat → Bool
-  | [], _ => true
-  | e :: tl, s => wf e && decide (e.size = s) && wfList tl s
+      0 < s ∧ WF l ∧ WF r ∧
+      (if o.type = 4 then s = 1 ∧ l.size = r.size
+       else if o.type = 8 then s = l.size
+       else l.size = r.size ∧ s = if o = Op.mul2 then 2 * l.size else l.size)
+  | uop _ r s _ _ => 0 < s ∧ WF r ∧ s = r.size
+  | ptr b sg _ s _ => 0 < s ∧ WF b ∧ WFOpt sg ∧ s = b.size
+  | mem a s _ _ ms => WF a ∧ 0 < s ∧ WFMods ms
+  | vec l s _ => 0 < s ∧ WFList l s
+  | vecw l s _ => 0 < s ∧ WFList l s
+  | top s _ => 0 < s
+def WFParts : List Part → Prop
+  | [] => True
+  | (_, _, e) :: tl => WF e ∧ WFParts tl
+def WFOpt : Option Expr → Prop
+  | none => True
+  | some e => WF e
+def WFMods : List (Expr × Expr) → Prop
+  | [] => True
+  | (a, b) :: tl => WF a ∧ WF b ∧ WFMods tl
+def WFList : List Expr → Nat → Prop
+  | [], _ => True
+  | e :: tl, s => WF e ∧ e.size = s ∧ WFList tl s
 end
 
 end Expr
